@@ -1323,6 +1323,8 @@ class Interp:
 
     # -- arithmetic ----------------------------------------------------------------
     def binop(self, op, a, b, node):
+        if isinstance(op, ast.Div) and isinstance(a, Obj) and (self.kind_of(a), "__truediv__") in self.libmeth:
+            return self.libmeth[(self.kind_of(a), "__truediv__")](self, a, [b], {}, node)      # path-like objects: dir / "name"
         if (isinstance(a, Term) or isinstance(b, Term)) and type(op).__name__ in _BINOP_NAME:
             return Term(_BINOP_NAME[type(op).__name__], [a, b])
         if getattr(self, "sympy_mode", False) and (isinstance(a, ExtRef) or isinstance(b, ExtRef)) and \
